@@ -18,7 +18,7 @@ SPEC_BUILTINS = ('forall', 'exists', 'implies', 'iff', 'old', 'at', 'ite', 'fora
                  'exists_ref', 'allocated', 'fresh', 'typeof', 'unchanged', 'card',
                  'select', 'floor_div', 'truthy', 'is_none', 'dyn_is', 'subset',
                  'set_eq', 'set_minus', 'set_union', 'set_add', 'set_del', 'empty_set',
-                 'disjoint', 'has_key', 'keys_eq', 'seq_eq', 'let')
+                 'disjoint', 'has_key', 'keys_eq', 'seq_eq', 'let', 'setof')
 
 
 class Ctx(object):
@@ -101,9 +101,16 @@ class ExprMixin(object):
       return z3.And(v.t != 0, nonempty) if ty.opt else nonempty
     if ty.k == 'ref':
       ci = self.reg.classes.get(ty.name)
-      if ci is not None and ci.always_true is not True:
-        # class with __len__/__bool__: truthiness given by a declared spec expression
-        raise Unsupported('truthiness of %s' % ty.name)
+      if ci is not None and ci.truthy_expr:
+        fid = fresh_name('tr')
+        st.frames[fid] = {'self': V(ty.with_opt(False), v.t)}
+        self.spec_depth += 1
+        try:
+          b = self.truth(st, self.ev1(self.parse_spec(ci.truthy_expr), st, Ctx(None, None, [fid])))
+        finally:
+          self.spec_depth -= 1
+          st.frames.pop(fid, None)
+        return z3.And(v.t != 0, b) if ty.opt else b
       return (v.t != 0) if ty.opt else z3.BoolVal(True)
     if ty.k in ('any', 'fn'):
       return (v.t != 0)
@@ -334,6 +341,15 @@ class ExprMixin(object):
         yield st1, vals
         continue
       ty = self.expected_type(cx, node)
+      if ty is not None and ty.k == 'ref' and self.reg.classes.get(ty.name) is not None and self.reg.classes[ty.name].listlike:
+        ci = self.reg.classes[ty.name]
+        if len(vals) != len(ci.listlike):
+          raise Unsupported('record literal of %s needs %d items' % (ty.name, len(ci.listlike)))
+        r = self.new_ref(st1, ty.name)
+        for fname, val in zip(ci.listlike, vals):
+          self.store_field(st1, r, ty.name, fname, val)
+        yield st1, V(ty.with_opt(False), r)
+        continue
       if ty is None:
         if not vals:
           raise Unsupported('type of empty list literal at line %d (declare it in locals)' % node.lineno)
